@@ -12,8 +12,7 @@
 // line array, and the contracts are themselves proved for the real functions:
 //   h_select*  real preprocess2, calls to skip_cond_incl  replaced by contract spec1
 //   h_skip1    real skip_cond_incl,  calls to skip_cond_incl2 replaced by contract spec2 == spec1
-//   h_skip2    real skip_cond_incl2, recursive calls replaced by contract spec2         == spec2
-//              (induction over the remaining list length: recursive calls are on strict suffixes)
+//   h_skip2    real skip_cond_incl2 including its real recursion (bounded by the nesting)  == spec2
 #ifndef NITEMS
 #define NITEMS 6
 #endif
@@ -21,21 +20,25 @@
 static int expect_no_diag;
 #define VERIF_ON_EXIT(code) VASSERT(!expect_no_diag, "no diagnostic on a well-formed directive sequence")
 #define VERIF_PACKED_SPELLING 1
+// native replays run the real eval_const_expr: its const_expr() import yields the bit of the operand token
+#define VERIF_CONST_EXPR(tok) ((tok)->val == verif_spell("1"))
 #include "common.h"
 #include "pp_env.h"
 // strndup is only used by #undef / #define / #include "..." handling: unreachable with this alphabet
 // (asserted), and its character copy through a symbolic Token pointer is very slow in cbmc 6.11
 static char *verif_unreach_strndup(const char *s, size_t n);
+#undef strndup
 #define strndup(s, n) verif_unreach_strndup(s, n)
 #include "preprocess.c"
 #undef strndup
 #include "pp_env_impl.h"
 
-enum { I_IF, I_IFDEF, I_IFNDEF, I_ELIF, I_ELSE, I_ENDIF, I_TEXT, I_NKINDS };
+enum { I_IF, I_IFDEF, I_IFNDEF, I_ELIF, I_ELSE, I_ENDIF, I_TEXT, I_DEFINE, I_NKINDS };   // I_DEFINE: guard harness only
 struct IN_t {
   struct { unsigned char kind, bit, name, junk; } it[NITEMS];
   unsigned char defined[2];
   unsigned char start, at_junk;
+  unsigned char n;      // number of lines (guard harness; the others use NITEMS)
 } IN;
 struct IN_t nondet_IN(void);
 #define IS_OPENER(k) ((k) == I_IF || (k) == I_IFDEF || (k) == I_IFNDEF)
@@ -58,11 +61,13 @@ static Token *mk(int line, TokenKind k, char *sp, int len, bool bol) {
   return t;
 }
 
+static int nlines = NITEMS;
 static Token *build(void) {
   first_tok = last_tok = NULL;
   for (int i = 0; i < NITEMS; i++) {
     int kind = IN.it[i].kind;
-    junk_tok[i] = NULL; third_tok[i] = NULL;
+    junk_tok[i] = NULL; third_tok[i] = NULL; line_tok[i] = NULL;
+    if (i >= nlines) continue;
     if (kind == I_TEXT) {
       sp_text[i][0] = 't'; sp_text[i][1] = '0' + i; sp_text[i][2] = 0;
       line_tok[i] = mk(i, TK_IDENT, sp_text[i], 2, true);
@@ -72,6 +77,9 @@ static Token *build(void) {
     if (kind == I_IF || kind == I_ELIF) {
       mk(i, TK_IDENT, kind == I_IF ? "if" : "elif", kind == I_IF ? 2 : 4, false);
       third_tok[i] = mk(i, TK_PP_NUM, IN.it[i].bit ? "1" : "0", 1, false);
+    } else if (kind == I_DEFINE) {
+      mk(i, TK_IDENT, "define", 6, false);
+      third_tok[i] = mk(i, TK_IDENT, IN.it[i].name ? "Y" : "X", 1, false);
     } else if (kind == I_IFDEF || kind == I_IFNDEF) {
       mk(i, TK_IDENT, kind == I_IFDEF ? "ifdef" : "ifndef", kind == I_IFDEF ? 5 : 6, false);
       third_tok[i] = mk(i, TK_IDENT, IN.it[i].name ? "Y" : "X", 1, false);
@@ -82,6 +90,7 @@ static Token *build(void) {
     }
   }
   line_tok[NITEMS] = mk(NITEMS, TK_EOF, "", 0, true);
+  for (int i = NITEMS - 1; i >= 0; i--) if (i >= nlines) line_tok[i] = line_tok[NITEMS];
   return first_tok;
 }
 
@@ -108,7 +117,13 @@ Macro *stub_find_macro(Token *tok) {
 #define UNREACH(msg) do { VASSERT(0, msg); __CPROVER_assume(0); } while (0)
 #endif
 static Macro dummy_macro = {.name = "X", .is_objlike = true};
-static char *verif_unreach_strndup(const char *s, size_t n) { UNREACH("no #undef/#define/#include in this alphabet"); return 0; }
+static bool strndup_allowed;
+static char *verif_unreach_strndup(const char *s, size_t n) {
+  if (!strndup_allowed) UNREACH("no #undef/#define/#include in this alphabet");
+  char *r = calloc(1, 4);
+  for (int i = 0; i < 3 && i < n; i++) r[i] = s[i];
+  return r;
+}
 bool stub_expand_macro(Token **rest, Token *tok) {
   if (tok->kind == TK_IDENT && (tok->val == verif_spell("X") || tok->val == verif_spell("Y")))
     UNREACH("macro names occur only as #ifdef/#ifndef operands in this alphabet");
@@ -135,6 +150,8 @@ static bool reference(void) {         // returns well-formedness (C11 6.10 gramm
     int k = IN.it[i].kind;
     bool act = d == 0 || (par[d - 1] && cur[d - 1]);
     ref_sel[i] = false;
+    if (i >= nlines) continue;
+    if (k == I_DEFINE) { ref_sel[i] = act; continue; }     // (guard harness) an active #define is an effect
     if (IS_OPENER(k)) {
       if (d == MAXNEST) return false;
       bool c = cond_of(i);
@@ -161,9 +178,9 @@ static bool reference(void) {         // returns well-formedness (C11 6.10 gramm
 
 static void assume_shape(bool allow_junk) {
   for (int i = 0; i < NITEMS; i++) {
-    __CPROVER_assume(IN.it[i].kind < I_NKINDS && IN.it[i].bit <= 1 && IN.it[i].name <= 1 && IN.it[i].junk <= 1);
+    __CPROVER_assume(IN.it[i].kind < (nlines == NITEMS ? I_DEFINE : I_NKINDS) && IN.it[i].bit <= 1 && IN.it[i].name <= 1 && IN.it[i].junk <= 1);
     int k = IN.it[i].kind;
-    if (!allow_junk || k == I_IF || k == I_ELIF || k == I_TEXT) __CPROVER_assume(IN.it[i].junk == 0);
+    if (!allow_junk || k == I_IF || k == I_ELIF || k == I_TEXT || k == I_DEFINE) __CPROVER_assume(IN.it[i].junk == 0);
   }
   __CPROVER_assume(IN.defined[0] <= 1 && IN.defined[1] <= 1);
 }
@@ -174,7 +191,7 @@ static void assume_shape(bool allow_junk) {
 static Token *spec1_from(int from) {
   int d = 0;
   for (int k = 0; k < NITEMS; k++) {
-    if (k < from) continue;
+    if (k < from || k >= nlines) continue;
     int kind = IN.it[k].kind;
     if (IS_OPENER(kind)) d++;
     else if (kind == I_ENDIF) { if (d == 0) return line_tok[k]; d--; }
@@ -187,7 +204,7 @@ static Token *spec1_from(int from) {
 static Token *spec2_from(int from) {
   int d = 0;
   for (int k = 0; k < NITEMS; k++) {
-    if (k < from) continue;
+    if (k < from || k >= nlines) continue;
     int kind = IN.it[k].kind;
     if (IS_OPENER(kind)) d++;
     else if (kind == I_ENDIF) { if (d == 0) return junk_tok[k] ? junk_tok[k] : line_tok[k + 1]; d--; }
@@ -275,8 +292,46 @@ void h_skip2(void) {
   int s = IN.start;
   __CPROVER_assume(s < NITEMS && IS_OPENER(IN.it[s].kind));
   expect_no_diag = 1;
-  Token *(*fp)(Token *) = skip_cond_incl2;      // through a pointer: --replace-calls leaves this call alone
-  Token *got = fp(third_tok[s]);
+  Token *got = skip_cond_incl2(third_tok[s]);   // real function, real recursion (no cut in this harness)
   VASSERT(got == spec2_from(s + 1), "skip_cond_incl2 returns the token after the matching #endif");
+  VCOVER();
+}
+
+// ---------------------------------------------------------------- (b) include-guard detection
+// Real detect_include_guard on a symbolic file of IN.n <= NITEMS lines (alphabet above plus
+// `#define N`).  Soundness of the re-inclusion shortcut in include_file(): if the answer is G, then
+// textual re-inclusion of the file while G is defined (the shortcut's own condition) selects no
+// text line and no #define, for every truth value of the other conditions (C11 6.10.1 reference).
+// The skipper calls inside are replaced by their (separately proved) contracts.
+void h_guard(void) {
+  HAVOC_IN();
+  __CPROVER_assume(IN.n >= 1 && IN.n <= NITEMS);
+  nlines = IN.n;
+  assume_shape(true);
+  bool wf = reference();
+  __CPROVER_assume(wf);
+  Token *in = build();
+  spec_tabulate();
+  strndup_allowed = true;
+  expect_no_diag = 1;
+  char *got = detect_include_guard(in);
+  if (got) {
+    bool isX = got[0] == 'X' && got[1] == 0, isY = got[0] == 'Y' && got[1] == 0;
+    VASSERT(isX || isY, "reported guard is a macro name of the file");
+    if (!isX && !isY) return;
+    IN.defined[isY] = 1;                 // include_file() skips only while the guard macro is defined
+    reference();
+    bool effect = false;
+    for (int i = 0; i < NITEMS; i++) if (i < nlines && ref_sel[i]) effect = true;
+    VASSERT(!effect, "skipping the re-inclusion of a file reported as guarded cannot change the output");
+  }
+  // the plain pattern is recognised (otherwise every header would be re-read: not a C10 violation, a sanity check)
+  bool plain = nlines >= 3 && IN.it[0].kind == I_IFNDEF && !IN.it[0].junk && IN.it[1].kind == I_DEFINE &&
+               IN.it[1].name == IN.it[0].name;
+  for (int i = 2; i < NITEMS; i++) {
+    if (i < nlines - 1 && IN.it[i].kind != I_TEXT) plain = false;
+    if (i == nlines - 1 && (IN.it[i].kind != I_ENDIF || IN.it[i].junk)) plain = false;
+  }
+  if (plain) VASSERT(got != NULL, "the plain #ifndef/#define/text.../#endif pattern is recognised");
   VCOVER();
 }
